@@ -172,112 +172,220 @@ namespace
   }
 
   // ---------------- histories (E2) ----------------
-  struct HOp { int kind; };   // 0..5 queries on W1, 6 construct W2, 7 query W2, 8 destroy W2
-  const int NOPS = 9;
-  const char *OPN[] = {"W1.properties3d[T,c0,g03,vel]", "W1.properties3d[tag]", "W1.properties2d[vel,g12,T]", "W1.temperature3d", "W1.grains3d(0,3)", "W1.composition2d(1)",
-                       "construct W2 (other file)", "W2.properties3d[T,c1,vel]", "destroy W2"
-                      };
-  struct HState
-  {
-    std::unique_ptr<World> w1, w2;
-  };
+  // Every history runs in a freshly exec'd process, so process-level state (statics, thread-locals, caches)
+  // starts pristine and the order "which world is queried first in this process" is part of the explored space.
+  // Query operations come in pairs of ADJACENT doubles that straddle a feature boundary (found by bisection in the
+  // prepare step): any cache or shared scratch keyed with a tolerance makes the second answer of a pair wrong.
   std::string engine_string(World &w) { std::stringstream ss; ss << w.get_random_number_engine(); return ss.str(); }
-
-  std::vector<double> do_query(World &w1, int op, const Loaded &L)
+  const int NPAIRS = 4;
+  const int NOPS = 13;   // 0..7 pair queries (in,out)x4, 8: 2-D batched, 9: grains entry point, 10: construct W2, 11: query W2, 12: destroy W2
+  const char *PAIRN[NPAIRS] = {"continental-plate-west-edge", "mantle-layer-bottom", "slab-top-surface", "plume-rim"};
+  std::string opname(int op)
   {
-    switch (op)
-      {
-        case 0: return w1.properties(L.p3[61], L.d3[61], {ATOMS[0], ATOMS[1], ATOMS[4], ATOMS[7]});
-        case 1: return w1.properties(L.p3[140], L.d3[140], {ATOMS[6]});
-        case 2: return w1.properties(L.p2[20], L.d2[20], {ATOMS[7], ATOMS[5], ATOMS[0]});
-        case 3: return {w1.temperature(L.p3[97], L.d3[97])};
-        case 4: { std::vector<double> f(30, 0.0); w1.grains(L.p3[13], L.d3[13], 0, 3).unroll_into(f, 0); return f; }
-        default: return {w1.composition(L.p2[32], L.d2[32], 1)};
-      }
+    if (op < 8) return std::string("W1.properties3d[T,c0,tag,vel] at ") + PAIRN[op/2] + (op % 2 ? "/outer-neighbour" : "/inner-neighbour");
+    const char *n[] = {"W1.properties2d[vel,g12,T]", "W1.grains3d(0,3)", "construct W2 (spherical file across the dateline)", "W2.properties3d[T,c1,tag] at an aliased longitude", "destroy W2"};
+    return n[op-8];
   }
-  std::vector<std::vector<double>> probe_all(World &w1, const Loaded &L)
+  const Request PAIR_REQ = {{{1,0,0}},{{2,0,0}},{{4,0,0}},{{5,0,0}}};
+  const Request W2_REQ = {{{1,0,0}},{{2,1,0}},{{4,0,0}}};
+
+  struct Ref
   {
-    std::vector<std::vector<double>> r;
-    for (int op = 0; op < 6; ++op) r.push_back(do_query(w1, op, L));
-    return r;
+    P3 pin[NPAIRS], pout[NPAIRS]; double din[NPAIRS], dout[NPAIRS];
+    std::vector<std::vector<double>> fresh;   // answers of ops 0..9 and 11 on history-free worlds (index = op)
+    std::string engine;
+  };
+  std::string text_w1() { return worlds::rich(opt_for(0)); }
+  std::string text_w2() { worlds::Opt o; o.spherical = true; o.variant = 1; o.shift = 178; return worlds::rich(o); }
+  P3 point_w2() { return query_point(true, 181.5, 0.5, 8e4); }
+
+  struct Loaded2D { std::array<double,2> p2; double d2; P3 pg; double dg; };
+  Loaded2D fixed_points()
+  {
+    Loaded2D L;
+    const auto l2 = worlds::lattice2(false);
+    L.p2 = {{l2[20].x, l2[20].z}}; L.d2 = l2[20].depth;
+    const auto l3 = worlds::lattice(false);
+    L.pg = query_point(false, l3[13].x, l3[13].y, l3[13].depth); L.dg = l3[13].depth;
+    return L;
+  }
+  std::vector<double> do_op(World &w1, World *w2, int op, const Ref &R, const Loaded2D &L2)
+  {
+    if (op < 8) { const int k = op/2; return op % 2 ? w1.properties(R.pout[k], R.dout[k], PAIR_REQ) : w1.properties(R.pin[k], R.din[k], PAIR_REQ); }
+    if (op == 8) return w1.properties(L2.p2, L2.d2, {ATOMS[7], ATOMS[5], ATOMS[0]});
+    if (op == 9) { std::vector<double> f(30, 0.0); w1.grains(L2.pg, L2.dg, 0, 3).unroll_into(f, 0); return f; }
+    return w2->properties(point_w2(), 8e4, W2_REQ);
+  }
+
+  std::string ref_path() { return G().rundir + "/c01_ref.txt"; }
+  void write_ref(const Ref &R)
+  {
+    FILE *f = fopen(ref_path().c_str(), "w");
+    for (int k = 0; k < NPAIRS; ++k)
+      fprintf(f, "%a %a %a %a %a %a %a %a\n", R.pin[k][0], R.pin[k][1], R.pin[k][2], R.din[k], R.pout[k][0], R.pout[k][1], R.pout[k][2], R.dout[k]);
+    for (auto &v : R.fresh) { fprintf(f, "%zu", v.size()); for (double x : v) fprintf(f, " %a", x); fprintf(f, "\n"); }
+    fprintf(f, "%s\n", R.engine.c_str());
+    fclose(f);
+  }
+  const Ref &read_ref(bool pairs_only = false)
+  {
+    static Ref R; static bool done = false;
+    if (done) return R;
+    FILE *f = fopen(ref_path().c_str(), "r");
+    if (!f) { fprintf(stderr, "missing %s (prepare step not run)\n", ref_path().c_str()); _exit(3); }
+    for (int k = 0; k < NPAIRS; ++k)
+      if (fscanf(f, "%la %la %la %la %la %la %la %la", &R.pin[k][0], &R.pin[k][1], &R.pin[k][2], &R.din[k], &R.pout[k][0], &R.pout[k][1], &R.pout[k][2], &R.dout[k]) != 8) _exit(3);
+    R.fresh.resize(NOPS);
+    for (int op = 0; op < NOPS && !pairs_only; ++op)
+      {
+        size_t n = 0;
+        if (fscanf(f, "%zu", &n) != 1) _exit(3);
+        R.fresh[op].resize(n);
+        for (size_t i = 0; i < n; ++i) if (fscanf(f, "%la", &R.fresh[op][i]) != 1) _exit(3);
+      }
+    if (!pairs_only)
+      {
+        static char buf[1<<16];
+        if (fscanf(f, " %65535[^\n]", buf) != 1) _exit(3);
+        R.engine = buf;
+      }
+    fclose(f);
+    done = true;
+    return R;
+  }
+
+  // prepare step (own fresh process): locate the boundary pairs by bisection, record history-free answers
+  void prepare(const std::string &)
+  {
+    Ref R;
+    auto w = make_world(text_w1(), 1, "ref");
+    auto tag_at = [&](double x, double y, double d) { return w->properties(query_point(false, x, y, d), d, {{{4,0,0}}})[0]; };
+    struct Line { double x0, y0, d0, x1, y1, d1; };
+    // endpoints a (inside the named feature) and b (outside it); the tag differs between them
+    const Line lines[NPAIRS] =
+    {
+      {-4.9e5, -3e5, 5e4, -5.1e5, -3e5, 5e4},       // continental plate west edge (x = -5e5), above the mantle layer
+      {-3e5, -3e5, 3.9e5, -3e5, -3e5, 4.1e5},       // mantle layer bottom (depth 4e5)
+      {1.15e5, -2e5, 8e4, 4e5, -2e5, 8e4},          // from inside the slab across its top surface into the oceanic plate
+      {-2.05e5, 2e5, 2e5, -0.2e5, 2e5, 2e5},        // from the plume axis across its rim into the mantle layer
+    };
+    for (int k = 0; k < NPAIRS; ++k)
+      {
+        const Line &l = lines[k];
+        const bool along_depth = l.d0 != l.d1;
+        double a = along_depth ? l.d0 : l.x0, b = along_depth ? l.d1 : l.x1;
+        auto tg = [&](double v) { return along_depth ? tag_at(l.x0, l.y0, v) : tag_at(v, l.y0, l.d0); };
+        const double ta = tg(a), tb = tg(b);
+        if (ta == tb) { fprintf(stderr, "C01 prepare: line %d does not cross a boundary (tag %g)\n", k, ta); _exit(3); }
+        // bisection down to adjacent doubles
+        for (;;)
+          {
+            const double m = a + 0.5*(b-a);
+            if (m == a || m == b) break;
+            if (tg(m) == ta) a = m; else b = m;
+          }
+        if (std::nextafter(a, b) != b) { fprintf(stderr, "C01 prepare: bisection did not reach adjacent doubles\n"); _exit(3); }
+        R.pin[k] = along_depth ? query_point(false, l.x0, l.y0, a) : query_point(false, a, l.y0, l.d0);
+        R.pout[k] = along_depth ? query_point(false, l.x0, l.y0, b) : query_point(false, b, l.y0, l.d0);
+        R.din[k] = along_depth ? a : l.d0;
+        R.dout[k] = along_depth ? b : l.d0;
+      }
+    // history-free answers: one freshly exec'd process per operation (a brand-new world, queried exactly once),
+    // so that neither the bisection above nor any other query can have left traces in the process
+    R.fresh.assign(NOPS, {});
+    { auto f = make_world(text_w1(), 1, "ref"); R.engine = engine_string(*f); }
+    write_ref(R);     // pairs first: the pristine children read them
+    for (int op = 0; op < NOPS; ++op)
+      {
+        if (op == 10 || op == 12) continue;
+        const std::string out = exec_child_case("href", static_cast<uint64_t>(op));
+        const size_t pos = out.find("S\t");
+        if (pos == std::string::npos) { fprintf(stderr, "C01 prepare: pristine child for op %d gave no answer: %s\n", op, out.c_str()); _exit(3); }
+        std::stringstream ss(out.substr(pos+2));
+        std::string tok;
+        while (ss >> tok) { if (tok == "C") break; R.fresh[op].push_back(strtod(tok.c_str(), nullptr)); }
+      }
+    write_ref(R);
+  }
+
+  // hidden suite: answer of one operation on brand-new worlds in this (pristine) process
+  void run_href(uint64_t idx, Ctx &ctx)
+  {
+    const int op = static_cast<int>(idx);
+    const Ref &R = read_ref(true);
+    const Loaded2D L2 = fixed_points();
+    std::unique_ptr<World> w2;
+    if (op == 11) w2 = make_world(text_w2(), 1, "r2");
+    auto w1 = make_world(text_w1(), 1, "r1");
+    const std::vector<double> v = do_op(*w1, w2.get(), op, R, L2);
+    std::string sline;
+    for (double x : v) { char b[40]; snprintf(b, sizeof b, "%a ", x); sline += b; }
+    ctx.sample(sline);
   }
 
   void run_history(unsigned len, uint64_t idx, Ctx &ctx)
   {
     static const int c_tr = Ctx::counter_id("transitions"), c_traces = Ctx::counter_id("traces"), c_dis = Ctx::counter_id("sequences_with_disabled_op");
-    // reference: a world with no history at all (first thing this worker ever does with this file)
-    Loaded &L = load(0);
-    static std::vector<std::vector<double>> fresh;
-    static std::string fresh_engine;
-    static std::string text2;
-    static std::vector<double> fresh_w2;
-    static P3 p_w2;
-    if (fresh.empty())
-      {
-        auto w = make_world(L.text, 1, "h");
-        fresh_engine = engine_string(*w);
-        fresh = probe_all(*w, L);
-        worlds::Opt o2; o2.spherical = true; o2.variant = 1; o2.cross_section = true;
-        text2 = worlds::rich(o2);
-        p_w2 = query_point(true, 1.5, 0.5, 8e4);
-        auto w2 = make_world(text2, 1, "h2");
-        fresh_w2 = w2->properties(p_w2, 8e4, {ATOMS[0], ATOMS[2], ATOMS[7]});
-      }
     std::vector<int> ops(len);
     uint64_t i = idx;
     for (unsigned k = 0; k < len; ++k) { ops[len-1-k] = static_cast<int>(i % NOPS); i /= NOPS; }
-    // enabledness
     bool alive = false;
     for (int op : ops)
       {
-        if ((op == 6 && alive) || (op >= 7 && !alive)) { ctx.count(c_dis); return; }
-        if (op == 6) alive = true;
-        if (op == 8) alive = false;
+        if ((op == 10 && alive) || (op >= 11 && !alive)) { ctx.count(c_dis); return; }
+        if (op == 10) alive = true;
+        if (op == 12) alive = false;
       }
-    HState s;
-    s.w1 = make_world(L.text, 1, "h");
-    std::string trace;
-    auto fail = [&](const std::string &sig, const std::string &what)
+    const Ref &R = read_ref();
+    const Loaded2D L2 = fixed_points();
+    const std::string t1 = text_w1(), t2 = text_w2();
+    // The pairs were located by an in-process bisection (a long query history); their pristine answers must differ,
+    // otherwise that history changed what the bisection saw.
+    if (len == 1 && idx < 8 && idx % 2 == 0 && biteq(R.fresh[idx], R.fresh[idx+1]))
+      ctx.violation(std::string("C01/history/bisection-history-changed-answers/") + PAIRN[idx/2],
+                    JObj().str("what", "two adjacent doubles found by bisecting on the tag (in one process) have identical answers in pristine processes: the answers seen during the bisection depended on the preceding queries")
+                    .raw("inner", jarr(R.pin[idx/2])).raw("outer", jarr(R.pout[idx/2])).raw("pristine_answer", jarr(R.fresh[idx])).str("world1", t1).done());
+    std::unique_ptr<World> w1 = make_world(t1, 1, "h"), w2;
+    auto hist = [&]()
     {
       std::string t = "[";
-      for (size_t k = 0; k < ops.size(); ++k) t += (k ? "," : "") + jstr(OPN[ops[k]]);
-      ctx.violation(sig, JObj().str("what", what).raw("history", t + "]").str("world1", L.text).str("world2", text2).done());
+      for (size_t k = 0; k < ops.size(); ++k) t += (k ? "," : "") + jstr(opname(ops[k]));
+      return t + "]";
+    };
+    auto fail = [&](const std::string &sig, const std::string &what, const std::vector<double> &got, const std::vector<double> &want)
+    {
+      ctx.violation(sig, JObj().str("what", what).raw("history", hist()).raw("observed", jarr(got)).raw("history_free_answer", jarr(want)).str("world1", t1).str("world2", t2).done());
     };
     for (size_t k = 0; k < ops.size(); ++k)
       {
         const int op = ops[k];
         ctx.count(c_tr);
         ctx.eval();
-        if (op < 6)
+        if (op == 10) w2 = make_world(t2, 1, "h2");
+        else if (op == 12) w2.reset();
+        else
           {
-            if (!biteq(do_query(*s.w1, op, L), fresh[op])) fail(std::string("C01/history/op-result/") + OPN[op], "operation result depends on the preceding history");
+            const std::vector<double> got = do_op(*w1, w2.get(), op, R, L2);
+            if (!biteq(got, R.fresh[op]))
+              fail("C01/history/op-result/" + (op < 8 ? std::string("pair-query/") + PAIRN[op/2] : opname(op)), "operation result depends on the preceding history", got, R.fresh[op]);
           }
-        else if (op == 6) s.w2 = make_world(text2, 1, "h2");
-        else if (op == 7)
-          {
-            if (!biteq(s.w2->properties(p_w2, 8e4, {ATOMS[0], ATOMS[2], ATOMS[7]}), fresh_w2)) fail("C01/history/w2-result", "second world's answer depends on history");
-          }
-        else s.w2.reset();
-        // state after this transition
-        const auto pr = probe_all(*s.w1, L);
-        uint64_t h = 1469598103934665603ull;
-        for (auto &v : pr) h = fnv(v, h);
-        const std::string es = engine_string(*s.w1);
-        h = fnv(es, h);
-        h = fnv(std::string(s.w2 ? "W2" : "--"), h);
-        ctx.key("states", h);
-        for (int q = 0; q < 6; ++q)
-          if (!biteq(pr[q], fresh[q])) { fail(std::string("C01/history/probe/") + OPN[q], "probe answer after history differs from a fresh world"); break; }
-        if (es != fresh_engine) fail("C01/history/engine", "a query on a world without random models advanced the random number engine");
       }
+    // canonical state reached by this history: all probe answers (each from ... the same objects), engine, W2 alive
+    uint64_t h = 1469598103934665603ull;
+    for (int op = 0; op < 10; ++op)
+      {
+        const std::vector<double> got = do_op(*w1, nullptr, op, R, L2);
+        h = fnv(got, h);
+        if (!biteq(got, R.fresh[op])) { fail("C01/history/probe/" + (op < 8 ? std::string("pair-query/") + PAIRN[op/2] : opname(op)), "probe answer after the history differs from a history-free world", got, R.fresh[op]); break; }
+      }
+    const std::string es = engine_string(*w1);
+    h = fnv(es, h);
+    h = fnv(std::string(w2 ? "W2" : "--"), h);
+    ctx.key("states", h);
+    if (es != R.engine) fail("C01/history/engine", "a query on a world without random models advanced the random number engine", {}, {});
     ctx.count(c_traces);
     ctx.nontrivial();
-    if (idx % 4001 == 17)
-      {
-        std::string t = "[";
-        for (size_t k = 0; k < ops.size(); ++k) t += (k ? "," : "") + jstr(OPN[ops[k]]);
-        ctx.sample(JObj().raw("history", t + "]").done());
-      }
+    if (idx % 401 == 17) ctx.sample(JObj().raw("history", hist()).done());
   }
 }
 
@@ -287,14 +395,15 @@ int main(int argc, char **argv)
   spec.property = "C01";
   spec.level = "model_checking";
   spec.rule = "batching suites: every request list of length <= L over an 8-atom alphabet x 4 rich worlds x all lattice points, each block compared bit-for-bit with the stand-alone "
-              "query through the same interface (non-trivial: list length >= 2 and at least one point inside a feature); history suites: every operation sequence of length <= D over 9 "
-              "operations (6 queries on W1 through different entry points, construct/query/destroy a second world) replayed on fresh objects, canonical state = bit pattern of 6 "
-              "probe answers + serialised RNG engine + W2 alive (non-trivial: every enabled sequence; distinct by construction)";
+              "query through the same interface (non-trivial: list length >= 2 and at least one point inside a feature); history suites: every operation sequence of length <= D over 13 "
+              "operations (queries at 4 pairs of adjacent doubles straddling feature boundaries, 2-D batched query, grains entry point, construct/query/destroy a second, spherical world) "
+              "each replayed in a freshly exec'd process, canonical state = bit pattern of 10 probe answers + serialised RNG engine + W2 alive (non-trivial: every enabled sequence; distinct by construction)";
   spec.assumptions = {"request alphabet: temperature, composition 0/1, grains (0,1) (0,3) (1,2), tag, velocity", "worlds without random models (random models are C15)",
                       "every explored trace is an implementation trace (no separate model)"
                      };
   spec.counters = {"blocks_compared", "points_where_blocks_differ_from_background", "transitions", "traces", "sequences_with_disabled_op"};
   spec.quick_deadline_s = 300; spec.thorough_deadline_s = 1500;
+  spec.prepare = prepare;
   spec.finalize = [](const std::map<std::string,uint64_t> &c, const std::map<std::string,size_t> &k, JObj &cov)
   {
     cov.integer("states", k.count("states") ? static_cast<long long>(k.at("states")) : 0);
@@ -304,7 +413,7 @@ int main(int argc, char **argv)
   return driver(argc, argv, spec, [](const std::string &tier)
   {
     const bool th = tier == "thorough";
-    const unsigned L = th ? 4 : 3, D = th ? 5 : 3;
+    const unsigned L = th ? 4 : 3, D = th ? 4 : 3;
     std::vector<Suite> s;
     Suite a; a.name = "batch3d"; a.n = 4*n_lists(L); a.run = [L](uint64_t i, Ctx &c) { run_batch(false, L, i, c); };
     a.bound = "all request lists of length 1.." + std::to_string(L) + " over 8 atoms x 4 worlds x 240 points, 3-D interface";
@@ -314,12 +423,15 @@ int main(int argc, char **argv)
     s.push_back(b);
     Suite e; e.name = "entrypoints"; e.n = 3; e.run = run_entry; e.bound = "temperature/composition/grains entry points (2-D and 3-D) vs properties() on 3 worlds x all points";
     s.push_back(e);
+    { Suite r; r.name = "href"; r.n = 0; r.run = run_href; r.bound = "(helper: history-free answers computed in pristine processes; no cases of its own)"; s.push_back(r); }
     for (unsigned len = 1; len <= D; ++len)
       {
         Suite h; h.name = "history" + std::to_string(len);
         h.n = 1; for (unsigned k = 0; k < len; ++k) h.n *= NOPS;
         h.run = [len](uint64_t i, Ctx &c) { run_history(len, i, c); };
-        h.bound = "all operation sequences of length " + std::to_string(len) + " over 9 operations (disabled sequences skipped and counted)";
+        h.fresh_process = true;
+        h.bound = "all operation sequences of length " + std::to_string(len) + " over 13 operations (4 boundary-straddling pairs of adjacent doubles, 2-D batched query, grains entry point, "
+                  "construct/query/destroy a spherical world across the dateline); each sequence in a freshly exec'd process; disabled sequences skipped and counted";
         s.push_back(h);
       }
     return s;
